@@ -23,8 +23,10 @@ MANIFEST = {
             "lookup flags, nested actions with live positions) exhaustively over catalogue x all input strings up to "
             "length 4 (quick) / 5-6 (thorough) and prints the reference result of every behaviour; the real "
             "gtab.Context.Apply is run on the same tables and inputs and must produce exactly that result wherever "
-            "the spec marks the behaviour as defined. Random lookup lists / longer strings go the other way: real "
-            "outputs are recorded and TLC checks them against the spec.",
+            "the spec marks the behaviour as defined (families: simple, lig, order, ctx, ctxnest, ctxskip, ctxfilt, "
+            "ctxtrail, chain incl. class 0 and reverse chaining, gpos, bigid). Random lookup lists with arbitrary GDEF "
+            "data / longer strings go the other way: real outputs are recorded and TLC checks them against the spec. "
+            "The repository's 117 GSUB test cases, lifted from real gtab tables, validate the spec in every run.",
     "note": "Trusted: TLC, the table builder of the harness (public gtab structs), the transcription of OpenType "
             "semantics in Shaper.tla (DESIGN.md App. A). Equality is asserted only inside the spec's defined region; "
             "GSUB 8 is applied left to right like the code's documented TODO and marked undefined where order matters.",
